@@ -15,7 +15,12 @@ Two layers, both deterministic and exhaustive up to their bound:
                 operation is followed by a bare ``yield``.
 
   All three expose ``step(cid, fn, *a)``, ``spawn(parent) -> cid``, ``probe(cid, fn, *a)`` (a read executed in
-  that context), ``probe_root(fn, *a)`` and ``close()``.
+  that context), ``probe_root(fn, *a)``, ``close()`` and ``hop(cid, kind, fn, *a)``: run ``fn`` once, from inside
+  context ``cid``, in an *ephemeral* execution context - kind ``"tt"`` = a worker thread that received a copy of the
+  caller's context (``asyncio.to_thread`` / ``copy_context().run`` hand-off), kind ``"ex"`` = a worker thread with
+  no context propagation at all (``loop.run_in_executor``).  ``CtxReal`` and ``AioReal`` also offer
+  ``share(cid) -> cid``: a second actor living in the *same* context (two tasks created with one ``context=``).
+  ``AioReal(explicit=True)`` ("aiox") creates every task with an explicit ``context=`` argument.
 
 * **Line level.**  ``LineSched`` runs each context's whole operation list in its own thread under
   ``sys.settrace``; every ``line`` event inside the target file is a scheduling point at which the baton returns
@@ -29,9 +34,11 @@ harness (not the code under test) is nondeterministic and ``core.Broken`` is rai
 from __future__ import annotations
 
 import asyncio
+import concurrent.futures
 import contextvars
 import sys
 import threading
+import time
 import types
 from typing import Any, Callable, Iterator, Sequence
 
@@ -104,6 +111,16 @@ class CtxReal:
         # what code running in the parent does to start a child: copy_context() from inside the parent
         self.ctxs.append(self.ctxs[parent].run(contextvars.copy_context))
         return len(self.ctxs) - 1
+
+    def share(self, cid):
+        self.ctxs.append(self.ctxs[cid])
+        return len(self.ctxs) - 1
+
+    def hop(self, cid, kind, fn, *a):
+        def go():
+            eph = contextvars.copy_context() if kind == "tt" else contextvars.Context()
+            return eph.run(call, fn, *a)
+        return self.ctxs[cid].run(go)
 
     def probe(self, cid, fn, *a):
         return self.ctxs[cid].run(call, fn, *a)
@@ -178,6 +195,22 @@ class ThreadReal:
             raise core.Broken(f"thread realisation: spawn failed: {out!r}")
         return out
 
+    def hop(self, cid, kind, fn, *a):
+        # executed in thread `cid`: a fresh worker thread, with (tt) or without (ex) a copy of the caller's context
+        def go():
+            box = []
+            if kind == "tt":
+                ctx = contextvars.copy_context()
+                t = threading.Thread(target=lambda: box.append(ctx.run(call, fn, *a)), daemon=True)
+            else:
+                t = threading.Thread(target=lambda: box.append(call(fn, *a)), daemon=True)
+            t.start()
+            t.join(TIMEOUT)
+            if not box:
+                raise core.Broken("thread realisation: hop worker did not finish")
+            return box[0]
+        return self._send(cid, go, ())
+
     def probe(self, cid, fn, *a):
         # a thread's context cannot be entered from outside while the thread lives in it: ask the thread
         return self._send(cid, fn, a)
@@ -224,26 +257,58 @@ def _bare_yield():
     yield
 
 
+class FreshThreadExecutor(concurrent.futures.ThreadPoolExecutor):
+    """Default executor of the hand-driven loop: one brand-new thread per job, so that a worker's native context
+    never survives into the next job (a pool would make ``run_in_executor`` jobs see each other's leftovers)."""
+
+    def submit(self, fn, /, *args, **kwargs):
+        f: concurrent.futures.Future = concurrent.futures.Future()
+
+        def run():
+            if not f.set_running_or_notify_cancel():
+                return
+            try:
+                f.set_result(fn(*args, **kwargs))
+            except BaseException as e:  # noqa: BLE001
+                f.set_exception(e)
+
+        threading.Thread(target=run, daemon=True).start()
+        return f
+
+
+_CONSUMED = ("consumed",)
+
+
 class AioReal:
     name = "aio"
 
-    def __init__(self, root: contextvars.Context, nsiblings: int, native: bool = False):
+    def __init__(self, root: contextvars.Context, nsiblings: int, native: bool = False, explicit: bool = False):
         self.root = root
+        self.explicit = explicit
         self.loop = HandLoop()
+        self.loop.set_default_executor(FreshThreadExecutor(max_workers=1))
         self.tasks: list[asyncio.Task] = []
         self.mail: list[Any] = []
         self.res: list[Any] = []
+        self.fin: list[bool] = []
         self._prev_running = asyncio.events._get_running_loop()
         asyncio.events._set_running_loop(self.loop)
         for _ in range(nsiblings):
-            # create_task copies the *current* context: create it from inside the root
-            self.root.run(self._create)
+            if explicit:
+                self._create(self.root.copy())
+            else:
+                # create_task copies the *current* context: create it from inside the root
+                self.root.run(self._create)
 
-    def _create(self):
+    def _create(self, context=None):
         cid = len(self.tasks)
         self.mail.append(None)
         self.res.append(None)
-        task = self.loop.create_task(self._actor(cid))
+        self.fin.append(True)
+        if context is not None:
+            task = self.loop.create_task(self._actor(cid), context=context)
+        else:
+            task = self.loop.create_task(self._actor(cid))
         self.tasks.append(task)
         return cid
 
@@ -252,39 +317,78 @@ class AioReal:
             job = self.mail[cid]
             if job is None:
                 return
-            fn, a = job
-            self.mail[cid] = ("consumed",)
-            self.res[cid] = call(fn, *a)
+            kind, fn, a = job
+            self.mail[cid] = _CONSUMED
+            if kind == "sync":
+                r = call(fn, *a)
+            elif kind == "tt":
+                r = await asyncio.to_thread(call, fn, *a)
+            else:
+                r = await self.loop.run_in_executor(None, lambda: call(fn, *a))
+            self.res[cid] = r
+            self.fin[cid] = True
             await _bare_yield()
 
+    def _owner(self, h):
+        return getattr(h._callback, "__self__", None)
+
     def _run_handle_of(self, cid):
-        ctx = self.tasks[cid].get_context()
+        task = self.tasks[cid]
         ready = self.loop._ready
         for i, h in enumerate(ready):
-            if h._context is ctx:
+            if self._owner(h) is task:
                 del ready[i]
                 if h._cancelled:
                     raise core.Broken("asyncio realisation: task handle was cancelled")
                 h._run()
-                return
-        raise core.Broken(f"asyncio realisation: task {cid} has no ready handle")
+                return True
+        return False
 
-    def _send(self, cid, fn, a):
-        self.mail[cid] = (fn, a)
-        self._run_handle_of(cid)
-        if self.mail[cid] != ("consumed",):
+    def _send(self, cid, kind, fn, a):
+        self.mail[cid] = (kind, fn, a)
+        self.fin[cid] = False
+        if not self._run_handle_of(cid):
+            raise core.Broken(f"asyncio realisation: task {cid} has no ready handle")
+        if self.mail[cid] is not _CONSUMED:
             raise core.Broken(f"asyncio realisation: task {cid} did not take its operation")
+        if not self.fin[cid]:
+            # the task awaits an executor future: run whatever is neither a parked task's step (their handles stay
+            # queued) - the future's thread-safe completion callback, then this task's wake-up
+            others = {id(t) for i, t in enumerate(self.tasks) if i != cid}
+            deadline = time.monotonic() + TIMEOUT
+            while not self.fin[cid]:
+                ready = self.loop._ready
+                for i, h in enumerate(ready):
+                    if id(self._owner(h)) not in others:
+                        del ready[i]
+                        h._run()
+                        break
+                else:
+                    if time.monotonic() > deadline:
+                        raise core.Broken("asyncio realisation: executor hop never completed")
+                    time.sleep(0.0002)
         return self.res[cid]
 
     def step(self, cid, fn, *a):
-        return self._send(cid, fn, a)
+        return self._send(cid, "sync", fn, a)
+
+    def hop(self, cid, kind, fn, *a):
+        return self._send(cid, kind, fn, a)
 
     def spawn(self, parent):
-        # executed inside the parent task: asyncio.create_task semantic (copies the task's current context)
-        out = self._send(parent, self._create, ())
+        # executed inside the parent task: asyncio.create_task semantic (copies the task's current context), or the
+        # same snapshot passed explicitly as context=
+        if self.explicit:
+            out = self._send(parent, "sync", lambda: self._create(contextvars.copy_context()), ())
+        else:
+            out = self._send(parent, "sync", self._create, ())
         if not isinstance(out, int):
             raise core.Broken(f"asyncio realisation: spawn failed: {out!r}")
         return out
+
+    def share(self, cid):
+        # a second task created with the very same Context object
+        return self._create(self.tasks[cid].get_context())
 
     def probe(self, cid, fn, *a):
         # the task is suspended, so its context is not entered: read inside it without scheduling the task
@@ -300,7 +404,8 @@ class AioReal:
         try:
             for cid in range(len(self.tasks)):
                 self.mail[cid] = None
-                self._run_handle_of(cid)
+                if not self._run_handle_of(cid):
+                    raise core.Broken(f"asyncio realisation: task {cid} has no ready handle at close")
             # let done-callbacks drain
             guard = 0
             while self.loop._ready:
@@ -318,7 +423,14 @@ class AioReal:
             self.loop.close()
 
 
-REALISATIONS = {"ctx": CtxReal, "thr": ThreadReal, "aio": AioReal}
+class AioExplicitReal(AioReal):
+    name = "aiox"
+
+    def __init__(self, root, nsiblings, native=False):
+        super().__init__(root, nsiblings, native, explicit=True)
+
+
+REALISATIONS = {"ctx": CtxReal, "thr": ThreadReal, "aio": AioReal, "aiox": AioExplicitReal}
 
 
 # ------------------------------------------------------------------ line level: settrace baton scheduler
@@ -333,7 +445,8 @@ class LineSched:
     (number of enabled threads, whether the current thread was enabled)."""
 
     def __init__(self, bodies: Sequence[Callable[[], None]], choices: Sequence[int], target_file: str,
-                 wrap: Sequence[Callable[[Callable], None]] | None = None):
+                 wrap: Sequence[Callable[[Callable], None]] | None = None,
+                 gates: Sequence[Callable[[], bool] | None] | None = None):
         self.n = len(bodies)
         self.bodies = bodies
         self.choices = list(choices)
@@ -345,6 +458,8 @@ class LineSched:
         self.points: list[tuple[int, bool]] = []
         self.trace: list[int] = []
         self.wrap = wrap
+        # gates[i]() -> is thread i allowed to start yet (a child exists only after its parent spawned it)
+        self.gates = gates
 
     def _yield(self, tid):
         self.main.release()
@@ -392,7 +507,10 @@ class LineSched:
         cur = -1   # nobody runs yet: the first decision is a free choice, not a preemption
         pos = 0
         while not all(self.done):
-            enabled = [i for i in range(self.n) if not self.done[i]]
+            enabled = [i for i in range(self.n) if not self.done[i]
+                       and (self.gates is None or self.gates[i] is None or self.gates[i]())]
+            if not enabled:
+                raise core.Broken("line scheduler: no thread enabled but not all are done (gate never opened)")
             cur_en = cur in enabled
             if cur_en:
                 enabled = [cur] + [i for i in enabled if i != cur]
@@ -430,8 +548,8 @@ def explore_lines(make: Callable[[], tuple], bound: int, target_file: str,
         queue = levels[b]
         while queue:
             prefix = queue.pop()
-            bodies, wrap, observe = make()
-            s = LineSched(bodies, prefix, target_file, wrap)
+            bodies, wrap, observe, *rest = make()
+            s = LineSched(bodies, prefix, target_file, wrap, rest[0] if rest else None)
             pts = s.run()
             stats["executions"] += 1
             stats["per_level"][b] += 1
@@ -457,8 +575,8 @@ def explore_lines(make: Callable[[], tuple], bound: int, target_file: str,
 
 def run_lines(make: Callable[[], tuple], choices: Sequence[int], target_file: str):
     """Replay one line-level schedule: -> (observation, thread trace, number of decisions)."""
-    bodies, wrap, observe = make()
-    s = LineSched(bodies, choices, target_file, wrap)
+    bodies, wrap, observe, *rest = make()
+    s = LineSched(bodies, choices, target_file, wrap, rest[0] if rest else None)
     pts = s.run()
     obs = observe()
     if any(e is not None for e in s.errors):
